@@ -34,6 +34,7 @@ R6 fetch.py:_parent_keys_for_root_version leaves a parent out of the synthesised
 R7 (third round) StreamSource._stream_invs_as_deltas: the basis id handed to delta_to_lines is assigned only next to the delta it
    belongs to — the loop's own parent id with make_inventory_delta(inv, <inventory looked up under that id>), or NULL_REVISION with the
    null inventory.
+R8 (fourth round) BzrDir.clone_on_transport builds a PendingAncestryResult only under `result_repo.user_url == result.user_url`.
 Does not decide: completeness of search_missing_revision_ids, CHK filtering, testament equality.
 """
 ENDS = {"commit_write_group", "suspend_write_group", "abort_write_group"}
@@ -301,8 +302,19 @@ def run(ctx):
             bad7.append(f"L{a.lineno}: `{norm(a)}` — the basis id is computed separately from the delta (not the loop's own parent id)")
     ctx.require(n7 >= 2, f"{w7}: assignments of the basis id not found")
     ctx.check("R7-delta-names-its-basis", w7, not bad7, f"every `{bvar} = …` sits next to `{dvar} = make_inventory_delta(inv, <inventory of that same revision>)`", construct="; ".join(bad7)[:300], message=f"_stream_invs_as_deltas can emit an inventory-delta record whose named basis is not the inventory the delta was computed against ({'; '.join(bad7)[:300]}): the receiver applies the delta to another parent's inventory and silently stores a different tree for the revision — testaments of the same revision differ between source and target")
+    # ---- R8: the unconditional "copy the whole ancestry" recipe is chosen only for a repository known to be new ------------
+    BD = "breezy/bzr/bzrdir.py"
+    fcl = repo.func(BD, "BzrDir.clone_on_transport")
+    wcl = f"{BD}:BzrDir.clone_on_transport"
+    ifs8 = [n for n in ast.walk(fcl) if isinstance(n, ast.If) and any(isinstance(c, ast.Call) and (call_attr(c) or norm(c.func)).split(".")[-1] == "PendingAncestryResult" for st in n.body for c in ast.walk(st))]
+    ctx.require(len(ifs8) >= 1, f"{wcl}: the branch that builds a PendingAncestryResult was not found")
+    inner = ifs8[-1]
+    urls = [cmp_ for cmp_ in ast.walk(inner.test) if isinstance(cmp_, ast.Compare) and isinstance(cmp_.ops[0], ast.Eq) and norm(cmp_.left).endswith(".user_url") and norm(cmp_.comparators[0]).endswith(".user_url")]
+    ctx.check("R8-whole-ancestry-only-into-new-repository", wcl, bool(urls), "PendingAncestryResult (a recipe that is used as it stands, without asking what the target already holds) is chosen only when the result repository sits at the new location itself, i.e. is empty", construct=norm(inner.test)[:120], message="clone_on_transport picks the literal whole-ancestry recipe whenever the result is not stacked, also when the new branch lands inside an existing shared repository: everything the repository already holds is streamed again — fetching again no longer transfers nothing")
+
 
 MUTANTS = [
+    Mutant("whole-ancestry recipe also into an existing shared repository", "breezy/bzr/bzrdir.py", "                    result_repo.user_url == result.user_url\n                    and not require_stacking\n", "                    not require_stacking\n", expect="R8-whole-ancestry-only-into-new-repository"),
     Mutant("delta basis named from the unfiltered parent list", VF, "                        delta = candidate_delta\n                        basis_id = parent_id\n", "                        delta = candidate_delta\n                        basis_id = parent_ids[0]\n", expect="R7-delta-names-its-basis"),
     Mutant("None in the root-id map taken for a ghost", "breezy/bzr/fetch.py", "            parent_ids.append(parent_id)\n        else:\n            # root_id may be in the parent anyway.\n", "            parent_ids.append(parent_id)\n        elif parent_root_id is None:\n            continue\n        else:\n            # root_id may be in the parent anyway.\n", expect="R6-root-parent-dropped-only-when-unloadable"),
     Mutant("fallback lists compared with zip only", "breezy/repository.py", "        if len(my_fb) != len(other_fb):\n            return False\n", "", expect="R5-same-fallbacks-compares-lengths"),
